@@ -596,6 +596,149 @@ func (s *subject) riter() {
 	}
 }
 
+// walk: a cursor script — position the iterator (SeekToFirst / SeekToLast / Seek(k)), then any mix of
+// Next() and Prev(); after the positioning call and after every move observe Valid() and Key()/Value().
+// Oracle: an index cursor on the sorted map (Next = +1, invalid past the end; Prev = -1, invalid before
+// the start; an invalid iterator stays invalid). For a Seek start the index is taken from the landing
+// key (the landing itself is judged by seek()).
+func (s *subject) walk(start string, k []byte, script string, toModel bool) {
+	m := s.m
+	n := len(m.keys)
+	var obs []string
+	var landed []byte
+	landedValid := false
+	run := func() string {
+		obs = obs[:0]
+		it := s.t.NewIterator()
+		switch start {
+		case "first":
+			it.SeekToFirst()
+		case "last":
+			it.SeekToLast()
+		default:
+			it.Seek(k)
+		}
+		see := func() {
+			if it.Valid() {
+				obs = append(obs, hx(it.Key())+":"+strconv.FormatUint(uint64(it.Value()), 10))
+			} else {
+				obs = append(obs, "x")
+			}
+		}
+		see()
+		if it.Valid() {
+			landed, landedValid = clone(it.Key()), true
+		}
+		for _, mv := range script {
+			if mv == 'N' {
+				it.Next()
+			} else {
+				it.Prev()
+			}
+			see()
+		}
+		return strings.Join(obs, " ")
+	}
+	st := start
+	if start == "seek" {
+		st = "seek:" + hx(k)
+	}
+	sc := script
+	if sc == "" {
+		sc = "-"
+	}
+	panicked := false
+	if toModel {
+		s.c.Guard("swalk "+st+" "+sc, run)
+	} else {
+		func() {
+			defer func() {
+				if e := recover(); e != nil {
+					panicked = true
+					s.fail("panic", "walk %s %s: %v", st, sc, e)
+				}
+			}()
+			run()
+		}()
+	}
+	if panicked || len(obs) != len(script)+1 {
+		return
+	}
+	idx := -1
+	switch start {
+	case "first":
+		idx = 0
+	case "last":
+		idx = n - 1
+	default:
+		if landedValid {
+			j := m.lb(landed)
+			if j >= n || !bytes.Equal(m.keys[j], landed) {
+				s.fail("walk-mismatch", "Seek(%s) landed on %s which is not a key of the map", hx(k), hx(landed))
+				return
+			}
+			idx = j
+		}
+	}
+	show := func(i int) string {
+		if i < 0 {
+			return "x"
+		}
+		return hx(m.keys[i]) + ":" + strconv.FormatUint(uint64(m.vals[i]), 10)
+	}
+	want := []string{show(idx)}
+	for _, mv := range script {
+		if idx >= 0 {
+			if mv == 'N' {
+				idx++
+				if idx >= n {
+					idx = -1
+				}
+			} else {
+				idx--
+			}
+		}
+		want = append(want, show(idx))
+	}
+	for i := range want {
+		if want[i] != obs[i] {
+			s.fail("walk-mismatch", "keys=%d walk %s %s: observation %d is %s, the index cursor on the sorted map shows %s", n, st, sc, i, obs[i], want[i])
+			s.c.Branch("walk-mismatch")
+			return
+		}
+	}
+	s.c.Branch("walk-" + start)
+}
+
+// walks: cursor scripts directed at the turning points (before the first / past the last pair, Prev right
+// after Next and back, long zig-zags across node boundaries) and random ones from Seek landings
+func (s *subject) walks(r *rand.Rand, probes [][]byte) {
+	n := len(s.m.keys)
+	toModel := s.full
+	zig := func(k int) string {
+		var b strings.Builder
+		for b.Len() < k {
+			run := 1 + r.Intn(4)
+			c := byte('N')
+			if r.Intn(2) == 0 {
+				c = 'P'
+			}
+			for j := 0; j < run && b.Len() < k; j++ {
+				b.WriteByte(c)
+			}
+		}
+		return b.String()
+	}
+	s.walk("first", nil, "P"+zig(3), toModel)                               // Prev on the first pair: invalid, stays invalid
+	s.walk("last", nil, "N"+zig(3), toModel)                                // Next on the last pair
+	s.walk("first", nil, "NPNP"+zig(6+r.Intn(20)), toModel)                 // Prev undoes Next
+	s.walk("last", nil, "PNPN"+zig(6+r.Intn(20)), toModel)                  // Next undoes Prev
+	s.walk("first", nil, strings.Repeat("N", r.Intn(n+1))+zig(12), toModel) // somewhere inside (or off the end)
+	for i := 0; i < 3 && i < len(probes); i++ {
+		s.walk("seek", probes[r.Intn(len(probes))], zig(4+r.Intn(16)), toModel)
+	}
+}
+
 // collect the iterator's remaining pairs (first three shown)
 func drain(it *trie.Iterator, limit int) (n int, first []pair) {
 	for ; it.Valid(); it.Next() {
@@ -716,6 +859,7 @@ func (s *subject) queries(r *rand.Rand, probes [][]byte) {
 		s.iterAll("liter")
 	}
 	s.riter()
+	s.walks(r, probes)
 	nSeek := len(probes)
 	if s.big {
 		nSeek = 25
@@ -866,6 +1010,9 @@ func trieCaseOn(c *core.Ctx, r *rand.Rand, b trie.Builder, keys [][]byte, vals [
 	s2.dumpVectors(nil)
 	s2.navOps(r, 3)
 	s2.queries(r, probes)
+	// damaged images of this trie, and a pooled trie object with a history (wire.go)
+	s2.damaged(r, buf.Bytes(), t2, s2.full)
+	s2.pooled(r, buf.Bytes(), t2, probes, s2.full)
 }
 
 // ---------------------------------------------------------------- bit vector cases
@@ -2029,9 +2176,20 @@ func (area) Run(c *core.Ctx) error {
 			byLabels := i%40 == 19
 			var target int
 			if byLabels {
-				target = []int{512, 1024, 1536}[r.Intn(3)] + r.Intn(3) - 1
+				// rank blocks (512 bits) and, round 8, the 64-bit WORD boundaries of bitVector.Init /
+				// DistanceToNextSetBit / select64 (label count = bit count of hasChild / louds / hasSuffix)
+				base := []int{512, 1024, 1536, 64, 128, 192, 256, 320, 448, 576}
+				if c.Tier == "thorough" {
+					base = append(base, 2048, 2560, 4096, 8192)
+				}
+				target = base[r.Intn(len(base))] + r.Intn(3) - 1
 			} else {
-				target = []int{64, 128, 192, 512}[r.Intn(4)] + r.Intn(3) - 1
+				// select samples (one per 64 nodes), hasPrefix rank blocks (512 nodes)
+				base := []int{64, 128, 192, 512, 256, 320}
+				if c.Tier == "thorough" {
+					base = append(base, 1024, 1536, 2048)
+				}
+				target = base[r.Intn(len(base))] + r.Intn(3) - 1
 			}
 			keys, ok := genKeysTarget(r, target, byLabels)
 			kind := "nodes"
